@@ -124,6 +124,30 @@ VF_X void x__ZNSt8ios_base4InitC1Ev(char* t) { }
 #define VF_HAVE_x__ZNSt8ios_base4InitD1Ev
 VF_X void x__ZNSt8ios_base4InitD1Ev(char* t) { }
 
+/* ---- pthread mutex / std::condition_variable (contract models; every call is a scheduling point in thread bodies)
+ * mutex: first word = 0 free / 1+tid held.  lock blocks while held; unlock->lock is a happens-before edge.
+ * condition variable: first word = notification count.  wait = unlock + remember the count (this call), block until
+ * the count changed (vf_cv_wait_block), re-lock (vf_cv_wait_relock); notify_* increment the count and wake every
+ * waiter (spurious wake-ups are not modelled; waits sit in predicate loops); notify->wake is a happens-before edge. */
+#define VF_HAVE_x___pthread_key_create
+VF_X uint32_t x___pthread_key_create(char* k, char* d) { return 0; }
+#define VF_HAVE_x_pthread_mutex_lock
+VF_X uint32_t x_pthread_mutex_lock(char* m) {
+  if (*(uint32_t*)m) { VF_BLOCK(); return 0; }
+  *(uint32_t*)m = 1 + vf_cur; vf_hb_edge_in(m); return 0; }
+#define VF_HAVE_x_pthread_mutex_unlock
+VF_X uint32_t x_pthread_mutex_unlock(char* m) { vf_hb_edge_out(m); *(uint32_t*)m = 0; return 0; }
+#define VF_HAVE_x_pthread_mutex_trylock
+VF_X uint32_t x_pthread_mutex_trylock(char* m) { if (*(uint32_t*)m) return 16; *(uint32_t*)m = 1 + vf_cur; vf_hb_edge_in(m); return 0; }
+extern uint32_t vf_cv_snap[VF_MAXT];
+#define VF_HAVE_x__ZNSt18condition_variable4waitERSt11unique_lockISt5mutexE
+VF_X void x__ZNSt18condition_variable4waitERSt11unique_lockISt5mutexE(char* cv, char* lk) {
+  vf_cv_snap[vf_cur] = *(uint32_t*)cv; x_pthread_mutex_unlock(*(char**)lk); }
+#define VF_HAVE_x__ZNSt18condition_variable10notify_oneEv
+VF_X void x__ZNSt18condition_variable10notify_oneEv(char* cv) { vf_hb_edge_out(cv); ++*(uint32_t*)cv; }
+#define VF_HAVE_x__ZNSt18condition_variable10notify_allEv
+VF_X void x__ZNSt18condition_variable10notify_allEv(char* cv) { vf_hb_edge_out(cv); ++*(uint32_t*)cv; }
+
 /* ---- environment */
 #define VF_HAVE_x_getenv
 VF_X char* x_getenv(char* n) { return 0; }
